@@ -23,9 +23,11 @@ CLAIMS = {
  "C14": ("tlc-guestmem", "ScriptIO.tla transcribes retry_eintr! and the default exact loops; GuestMem.tla composes them with the try_access continuation across regions. TLC checks 'interruption never surfaces', 'exact iff full count' and 'every consumed byte is stored at the next guest address' for every script of up to 3 per-call behaviours (full, short 1/2, zero, EINTR, error) x every start and count on layouts with touching regions, holes and a target ending in a hole; every such transition (scripts up to length 2 quick / 4 thorough) is replayed with scripted reader/writer objects on region and guest level (mmap, file-backed and default-method backends) and validated by TLC, plus random longer scripts.", "6 C14"),
  "C19": ("tlc-addrarith", "AddrArith.tla states the exact meaning of every address operation and transcribes checked_align_up / unchecked_align_up / mask; TLC checks transcription = meaning for every operand pair of an 8-bit word and checks the 16-bit-limb arithmetic used for 64-bit operands against integer arithmetic. The crate's own macro instantiated at 8 bits (hook) is driven over operand pairs and GuestAddress / MemoryRegionAddress over all pairings of values within 4 of 0, 2^32, 2^63, 2^64, all 64 alignments and random operands; every recorded result is validated by TLC.", "6 C19"),
  "C20": ("tlc-endian", "Endian.tla models the wrapper exactly as the endian_type! macro builds it, as a function of the host byte order, and states round trip, wire format and exact equality on bytes; TLC checks them for every value of a small digit base on both hosts. Records from the eight real wrapper types (as_slice bytes, to_native, both comparison directions against the value and against a different value, size/alignment, bytes in a VolatileSlice after write_obj, read back) are validated by TLC: all values of the 16-bit types, structured patterns and random values for the wider ones.", "6 C20"),
+ "C08": ("tlc-bitmapconc", "BitmapConc.tla models every bitmap operation as the per-thread sequence of single-word atomic steps the code performs and TLC explores every interleaving of 2-3 threads (marks sharing a word and spanning two words, harvests, resets, clones), checking no-lost-mark, no-phantom and 'a step only clears/sets bits its operation is entitled to'; the load;store variant is refuted as a negative configuration. On the real AtomicBitmap an atomic shim (hook) turns every atomic operation into a scheduling point and a baton scheduler enumerates every ordering of those steps per scenario (thousands of schedules; a mutant's extra loads/stores become scheduling points by themselves); each recorded history is judged by TLC with generic atomic-memory semantics plus the same accounting rules.", "6 C08"),
  "C09": ("tlc-bitmap", "TLA+ specification of the bitmap as a set of page numbers, checked exhaustively by TLC for a small word (every start/length, every geometry) including the transcription of the range arithmetic; every transition of the small-scope state graph is replayed as a test on the real AtomicBitmap / Option / RefSlice / ArcSlice, and boundary-biased random histories (64-page boundaries, ranges near usize::MAX) recorded from the real code are validated by TLC against the same actions.", "6 C09"),
 }
 ENGINES = {
+ "tlc-bitmapconc": ("/verif/spec/BitmapConc.tla", "atomic step machines of the bitmap operations; accounting rules shared with the trace specification"),
  "tlc-bitmap": ("/verif/spec/Bitmap.tla", "Bitmap as a set of page numbers"),
  "tlc-regions": ("/verif/spec/Regions.tla", "immutable maps built from region handles; history of all maps"),
  "tlc-streams": ("/verif/spec/Streams.tla", "stream adapters specified by their std::io counterparts"),
@@ -43,7 +45,7 @@ m = {
  "hooks": {"guard": "--cfg vm_memory_verif",
            "enable": "rustflags in /verif/harness/.cargo/config.toml: --cfg vm_memory_verif (path dependency on /repo)",
            "baseline_off_cmd": "cd /repo && cargo test --workspace --no-fail-fast --offline",
-           "source_commits": ["d23bc8f"], "add_only": True},
+           "source_commits": ["d23bc8f", "bd665bf"], "add_only": False},
  "engines": [], "checks": [], "not_applicable": [],
  "notes": "Model-based verification with explicit TLA+ specifications (see DESIGN.md). ./check <ID> quick|thorough; exit 0/1/2 = held / VIOLATION / tool error.",
 }
